@@ -647,7 +647,7 @@ def findwalks(CIJ):
     n = len(CIJ)
     Wq = np.zeros((n, n, n))
     CIJpwr = CIJ.copy()
-    Wq[:, :, 1] = CIJ
+    Wq[:, :, 0] = CIJ
     for q in range(1, n):
         CIJpwr = np.dot(CIJpwr, CIJ)
         Wq[:, :, q] = CIJpwr
